@@ -146,3 +146,9 @@ Definition update_user_priv (u : urec) (p : option pparam) : urec :=
                         (obool (p_bl_all p) (bl_all g))
                         (match p_bl p with Some l => Some l | None => bl g end))
   end.
+
+(** ---- console namespace listing (console/api.rs query_namespace_list, v2/namespace_api.rs
+    query_namespace_list): every namespace when [is_all], otherwise those whose id passes
+    check_option_value_permission(id, false); an entry without an id is dropped ---- *)
+Definition namespace_list (g : pgroup) (all : list (option str)) : list (option str) :=
+  if is_all g then all else filter (fun id => ns_check_option g id false) all.
